@@ -120,6 +120,10 @@ type World struct {
 	// which materialises the world on the native filesystem, can realise them; the in-memory view ignores them.
 	Symlinks map[string]string `json:"symlinks,omitempty"`
 
+	// DirForm: how the command-line driver names the directory: 0 absolute path, 1 relative to the working
+	// directory, 2 relative with ./ and a trailing slash, 3 "." from inside it, 4 through a symbolic link to it.
+	DirForm int `json:"dir_form,omitempty"`
+
 	// ReadFaults: reading the named file returns its first N bytes and then an I/O error.
 	ReadFaults map[string]int `json:"-"`
 
@@ -138,7 +142,7 @@ func New(mode int) *World {
 }
 
 func (w *World) Clone() *World {
-	n := &World{Files: make(map[string]*File, len(w.Files)), Clock: w.Clock, ClockMode: w.ClockMode}
+	n := &World{Files: make(map[string]*File, len(w.Files)), Clock: w.Clock, ClockMode: w.ClockMode, DirForm: w.DirForm}
 	if w.Symlinks != nil {
 		n.Symlinks = map[string]string{}
 		for k, v := range w.Symlinks {
